@@ -43,6 +43,12 @@ theorem dot_spec_member_unique (P : Nat) (S : List Ev) (hwf : WFDot P S) (κ : T
   · exact hwf.2.2.2 e he e' he' hq hp
   · exact (hwf.2.2.2 e' he' e he hq.symm hp).symm
 
+/-- the specification's "every port has a received token with a prefix tag" is, on well-formed streams, the
+    property's "every port has exactly one such token" -/
+theorem dot_spec_exactly_one (P : Nat) (S : List Ev) (hwf : WFDot P S) (κ : Tag) :
+    specComplete P S κ = specCompleteOne P S κ :=
+  specComplete_eq_one hwf κ
+
 /-- non-vacuity: the 3-port broadcast example (tags `0`, `0.1`, `0.1.0`) is well formed, its specification is
     the single combination tagged `0.1.0`, and the model emits it -/
 example : WFDot 3 [(0, ⟨[0], 100⟩), (1, ⟨[0, 1], 200⟩), (2, ⟨[0, 1, 0], 300⟩)] := by
